@@ -29,10 +29,12 @@ ASSUMPTIONS = [
     'the ordering core is DependencyGraph.get_ordered(); EvolutionGraph '
     'adds typed nodes on top of it and is exercised by the pipeline pool',
 ]
-FLOORS = {'quick': {'nontrivial': 60000, 'acyclic_checked': 500,
+FLOORS = {'quick': {'second_database_projects': 5, 
+                    'nontrivial': 60000, 'acyclic_checked': 500,
                     'cyclic_checked': 500, 'mig_orders_checked': 40,
                     'cross_stage_projects': 10},
-          'thorough': {'nontrivial': 1000000, 'acyclic_checked': 10000,
+          'thorough': {'second_database_projects': 30, 
+                       'nontrivial': 1000000, 'acyclic_checked': 10000,
                        'cyclic_checked': 10000,
                        'mig_orders_checked': 400,
                        'cross_stage_projects': 100}}
